@@ -2,22 +2,28 @@ import Verif.Util.Proto
 /-!
 Driver for stream `compiledet` (property C35, compilation determinism — correspondence only, there
 is no model of the compiler): the harness compiles each generated program several times in one
-process and once in a fresh process and reports `same:<hash>[:fresh]`, `differ:<where>`,
+process and once in a fresh process (multi-program scenarios `compiledet multi …`: the whole set of
+programs, the last one recompiled 40 times against the same compiled dependencies) and reports `same:<hash>[:fresh]`, `differ:<where>`,
 `rejected:<phase>` (the generated program did not parse / check) or `compile-panic`.
 The spec is: every repetition yields the identical program.
 -/
 open Verif.Proto
 
+def judgeResult (shape : String) (go : String) : Verdict :=
+  if go.startsWith "same:" then
+    .ok (["!nt", "same", shape] ++ (if go.endsWith ":fresh" then ["fresh-process"] else ["in-process-only"]))
+  else if go.startsWith "differ:" then .violation "compile-nondeterministic" "identical-output-on-every-compilation" ["differ", shape]
+  else if go.startsWith "rejected:" then .skip go
+  else if go == "compile-panic" then .skip "compile-panic"
+  else if go == "hang" then .skip "hang"
+  else .skip "unknown-result"
+
 def judge (op : List String) (go : String) : Verdict :=
   match op with
-  | ["compiledet", _src] =>
-    if go.startsWith "same:" then
-      .ok (["!nt", "same"] ++ (if go.endsWith ":fresh" then ["fresh-process"] else ["in-process-only"]))
-    else if go.startsWith "differ:" then .violation "compile-nondeterministic" "identical-output-on-every-compilation" ["differ"]
-    else if go.startsWith "rejected:" then .skip go
-    else if go == "compile-panic" then .skip "compile-panic"
-    else if go == "hang" then .skip "hang"
-    else .skip "unknown-result"
+  | ["compiledet", _src] => judgeResult "single-program" go
+  -- `compiledet multi <name> <src> ...`: programs in dependency order, the last one (whose types inherit
+  -- conditions from interfaces of another program) recompiled against the same compiled dependencies
+  | "compiledet" :: "multi" :: _ :: _ :: _ => judgeResult "multi-program" go
   | _ => .skip "unknown-op"
 
 def main : IO Unit := runDriver judge
